@@ -243,7 +243,7 @@ pub fn run(tier: &str, seed: u64, out: &mut Out) {
         let st = *rng.pick(&int_sts);
         let p = crate::c01::broadcast_mix_program(&mut rng, st, i * 7 + 3);
         let owners = mixed[i % 5].clone();
-        let outs = all_outs[(i * 3 + 1) % 8].clone();
+        let outs = all_outs[(i * 3 + 1) % all_outs.len()].clone();
         let (mname, mode) = modes[i % 3].clone();
         out.stat("stream:broadcast-mix");
         run_program(&p, &owners, &outs, mname, mode, &mut rng, out, "exec3-broadcast-mix", 1, false);
@@ -258,7 +258,7 @@ pub fn run(tier: &str, seed: u64, out: &mut Out) {
         // owner vectors: all 5^n for n = 1, sampled otherwise; outputs: rotate through all 8 subsets
         let ovs: Vec<Vec<IOStatus>> = if ni == 1 && tier != "quick" { owner_vectors(1) } else { (0..if tier == "quick" { 1 } else { 3 }).map(|_| random_owners(ni, &mut rng)).collect() };
         for (k, owners) in ovs.iter().enumerate() {
-            let outs = all_outs[(i + k) % 8].clone();
+            let outs = all_outs[(i + k) % all_outs.len()].clone();
             let (mname, mode) = modes[(i + k) % 3].clone();
             run_program(&p, owners, &outs, mname, mode, &mut rng, out, "exec3", 2, truncating);
         }
